@@ -24,7 +24,7 @@ def _tc():
 
 
 def _cfg_row(tier):
-    return [{'muzzle': m} for m in (False, True)]
+    return [{'muzzle': m, 'prefs': pr} for m in (False, True) for pr in ('default', 'metric')]
 
 
 @harness('C05.row', 'C05', configs=_cfg_row, functions=FUNCS, engine_opts={'div_check': False},
@@ -35,8 +35,16 @@ def _cfg_row(tier):
          stubs=['tan/cos/atan/atan2 summarised; oracle uses the same summaries on independently written arguments'],
          assumptions=['floats as reals; unit round trips of the columns (feet*12/12, fps/3.2808399*3.2808399) are exact over the reals',
                       'energy compared with 1/2 m v^2 under g0 = 9.80665/0.3048 ft/s^2 at 2e-4 relative (the code constant 450400 differs by 8.1e-5)'])
-def c05_row(ctx, muzzle):
+def c05_row(ctx, muzzle, prefs='default'):
     p, tc = pybc(), _tc()
+    from harness.common import with_preferred
+    with with_preferred():
+        if prefs == 'metric':
+            p.loadMetricUnits()        # the columns are physical quantities: the preferred units in force when the row is built must not matter
+        return _c05_row(ctx, muzzle, p, tc)
+
+
+def _c05_row(ctx, muzzle, p, tc):
     from py_ballisticcalc.vector import Vector
     t = ctx.real('time', 0, 1e3)
     x = 0.0 if muzzle else ctx.real('x', 1e-6, 1e6)
